@@ -355,11 +355,12 @@ impl Ctx {
         if me != hx(enc) {
             self.rep.fail(FailKind::ModelDiff, None, "client-side encoder of the model differs from the one of the harness", &format!("{} {}\nmodel  : {}\nharness: {}", op, msg_sx(m, order), me, hx(enc)));
         }
+        self.incremental(startup, enc, Some(m));
         // strict prefixes → need more
-        let ks: Vec<usize> = if all_prefixes || enc.len() <= 48 {
+        let ks: Vec<usize> = if all_prefixes || enc.len() <= 160 {
             (0..enc.len()).collect()
         } else {
-            let mut v: Vec<usize> = vec![0, 1, 4, 5, 6, enc.len() - 2, enc.len() - 1];
+            let mut v: Vec<usize> = vec![0, 1, 3, 4, 5, 6, 7, 8, 9, enc.len() - 3, enc.len() - 2, enc.len() - 1];
             for _ in 0..10 {
                 v.push(rng.below(enc.len() as u64) as usize);
             }
@@ -380,6 +381,41 @@ impl Ctx {
             let got = self.check(startup, &b[..k], "prefix");
             if got != Outc::NeedMore {
                 self.rep.fail(FailKind::Oracle, None, "a strict prefix of a frame does not give need-more", &format!("{} {}\n(prefix of length {} of a frame of {} bytes)\nreal: {:?}", if startup { "startup" } else { "decode" }, hx(&b[..k]), k, enc.len(), got));
+            }
+        }
+    }
+
+    /// incremental delivery (real code only): the frame arrives as prefix, then the rest, for EVERY
+    /// cut point 0..len — need-more must leave the buffer untouched, the completed buffer must
+    /// decode to the message (`want` = None: only "no panic, nothing consumed before complete")
+    fn incremental(&mut self, startup: bool, enc: &[u8], want: Option<&M>) {
+        let op = if startup { "startup" } else { "decode" };
+        let cuts: Vec<usize> = if enc.len() <= 400 { (0..enc.len()).collect() } else { vec![0, 1, 3, 4, 5, 7, 8, enc.len() / 2, enc.len() - 2, enc.len() - 1] };
+        for k in cuts {
+            self.rep.count("incremental_cut");
+            let r = catch_unwind(AssertUnwindSafe(|| {
+                let mut buf = BytesMut::from(&enc[..k]);
+                let first = if startup { FrontendMessage::decode_startup(&mut buf) } else { FrontendMessage::decode(&mut buf) };
+                let first_ok = matches!(first, Ok(None)) && buf[..] == enc[..k];
+                buf.extend_from_slice(&enc[k..]);
+                let second = if startup { FrontendMessage::decode_startup(&mut buf) } else { FrontendMessage::decode(&mut buf) };
+                (first_ok, format!("{:?}", first).chars().take(120).collect::<String>(), second.map(|o| o.map(conv)).map_err(|e| e.to_string()), buf.len())
+            }));
+            let bad = match &r {
+                Err(_) => Some("panicked".to_string()),
+                Ok((first_ok, first, second, left)) => {
+                    if !first_ok {
+                        Some(format!("the incomplete buffer did not give need-more with the buffer untouched: {}", first))
+                    } else {
+                        match want {
+                            Some(m) if !(matches!(second, Ok(Some(g)) if g == m) && *left == 0) => Some(format!("after the rest arrived: {:?}, {} bytes left", second, left)),
+                            _ => None,
+                        }
+                    }
+                }
+            };
+            if let Some(w) = bad {
+                self.rep.fail(FailKind::Oracle, None, &format!("incremental delivery of a frame ({}): {}", op, w.chars().take(60).collect::<String>()), &format!("{} first {} (the first {} of {} bytes), then the remaining bytes {}\n{}", op, hx(&enc[..k]), k, enc.len(), hx(&enc[k..]), w));
             }
         }
     }
@@ -741,6 +777,31 @@ fn main() {
         e[..4].copy_from_slice(&l);
         e.extend_from_slice(&tail);
         cx.check(true, &e, "startup_no_terminator");
+    }
+
+    // ---- other startup-phase packets: CancelRequest (16 bytes, code 80877102), GSSENCRequest (80877104) ----
+    for i in 0..args.n(40, 800) {
+        let mut r = rng.fork();
+        let mut p = if i % 4 == 3 { 8u32.to_be_bytes().to_vec() } else { 16u32.to_be_bytes().to_vec() };
+        p.extend_from_slice(&(if i % 4 == 3 { 80877104i32 } else { 80877102i32 }).to_be_bytes());
+        if i % 4 != 3 {
+            // process id and secret key: arbitrary, with and without NUL bytes
+            for _ in 0..8 {
+                p.push(if r.chance(1, 4) { 0 } else { r.below(256) as u8 });
+            }
+        }
+        cx.rep.count(if i % 4 == 3 { "msg_gssenc_request" } else { "msg_cancel_request" });
+        let tail = gen_tail(&mut r);
+        let mut b = p.clone();
+        b.extend_from_slice(&tail);
+        cx.check(true, &b, "cancel_or_gssenc");
+        for k in 0..p.len() {
+            let got = cx.check(true, &b[..k], "prefix");
+            if got != Outc::NeedMore {
+                cx.rep.fail(FailKind::Oracle, None, "a strict prefix of a startup-phase packet does not give need-more", &format!("startup {}\n(prefix of length {} of a packet of {} bytes)\nreal: {:?}", hx(&b[..k]), k, p.len(), got));
+            }
+        }
+        cx.incremental(true, &p, None);
     }
 
     // ---- concatenated frames ----
